@@ -18,6 +18,7 @@ EXPLANATION = (
     "degree 1, fcn(x) - x == ab[0] * x + ab[1] and drift_ppm == ab[0] * 1e6; the coarse offset is (peak lag of correlate(x, y, 'full') - (len - 1)) * tbin "
     "and is subtracted from tsa before the first assignment. Accuracy (held-out error, recovered drift, 'nearly all' pairs) is NOT decided."
     ' (as built) rasters are identified by the series that marks them, whatever they are called; an identity pairing returned by a fast path must be accepted by a per-pair bound, not an aggregate misfit.'
+    ' (D1 selector form) the matched events may be selected through a local holding where(ib >= 0)[0]: both sides of a pairing use the same selector and no store into ib lies between its definition and its use.'
 )
 ASSUMPTIONS = [
     "scipy.signal.correlate(x, y, 'full')[k] peaks at k = (len(y) - 1) + d when x is y delayed by d bins (model table)",
